@@ -47,17 +47,8 @@ TR = list(base.TRANSIENT)
 FA = list(base.FATAL)
 
 
-def design_patterns():
-    """every way one job can go: ('ok', j) success after j transient failures, ('fatal', j), ('five',)"""
-    return [("ok", j) for j in range(5)] + [("fatal", j) for j in range(5)] + [("five",)]
-
-
-def pattern_codes(rng, pat):
-    if pat[0] == "five":
-        return [rng.choice(TR) for _ in range(5)]
-    codes = [rng.choice(TR) for _ in range(pat[1])]
-    codes.append("ok" if pat[0] == "ok" else rng.choice(FA))
-    return codes
+design_patterns = base.design_patterns
+pattern_codes = base.pattern_codes
 
 
 def raises(pat):
@@ -85,213 +76,12 @@ def serial_case(lab, rng, pats, cfg_force=None, again=True):
     return s.freeze()
 
 
-class ParSession(base.Session):
-    """2-worker parallel evaluation: outcomes are scripted per (design, attempt); everything is recorded per design"""
-
-    def __init__(self, lab, cfg, patterns):
-        super().__init__(lab, dict(cfg, processes=2))
-        self.patterns = patterns           # design id -> list of codes by attempt
-        self.dcalls = {}                   # design id -> [(vec, code, exc)]
-        self.drolls = {}                   # design id -> [vec]
-        self.dresult = {}                  # design id -> exception or None
-        self.dstore = {}
-        self.local = threading.local()
-        self.active = 0
-
-    def objective(self, individual):
-        with self.lock:
-            did = self.id_of(individual)
-            att = len(self.dcalls.setdefault(did, []))
-            pat = self.patterns.get(did, [])
-            code = pat[att] if att < len(pat) else "ok"
-            vec = [float(x) for x in individual.vector]
-            exc = None
-            if code in base.TRANSIENT:
-                exc = base.TRANSIENT[code]("scripted transient failure of design %d attempt %d" % (did, att))
-            elif code in base.FATAL:
-                cls, kind = base.FATAL[code]
-                exc = (cls or self.lab.BaseExc)("scripted failure of design %d attempt %d" % (did, att))
-            self.dcalls[did].append((vec, code, exc))
-            self.calls.append((individual, vec, code, exc))
-            self.local.did = did
-            self.local.session = self
-        if exc is not None:
-            raise exc
-        return list(self.F(vec))
-
-    def constraints(self, x, base_value):
-        with self.lock:
-            return super().constraints(x, base_value)
-
-    def gen_vector_wrapper(self):
-        session = self
-        real = self.lab.real_gen_vector.__func__
-
-        def gen_vector(cls, design_parameters):
-            v = real(cls, design_parameters)
-            if getattr(session.local, "session", None) is not session:
-                return v                       # a thread that is not working for this session
-            with session.lock:
-                session.drolls.setdefault(getattr(session.local, "did", -1), []).append([float(x) for x in v])
-                session.tape.append([float(x) for x in v])
-            return v
-        return classmethod(gen_vector)
-
-    def run_parallel(self, ids):
-        batch = [self.objs[i] for i in ids]
-        before = {i: self.snap(self.objs[i]) for i in ids}
-        job = self.alg.evaluator.job
-        real_evaluate = job.evaluate
-
-        def evaluate(individual):
-            with self.lock:
-                self.active += 1
-            try:
-                real_evaluate(individual)
-                with self.lock:
-                    self.dresult[self.id_of(individual)] = None
-            except BaseException as e:
-                with self.lock:
-                    self.dresult[self.id_of(individual)] = e
-                raise
-            finally:
-                with self.lock:
-                    self.active -= 1
-        job.evaluate = evaluate
-        exc = None
-        try:
-            with self.patched():
-                try:
-                    self.alg.evaluate(batch)
-                except BaseException as e:      # noqa: the caller's view of what propagates
-                    exc = e
-                # worker threads may still be inside a job when the exception reaches the caller: let them finish
-                t0, quiet = time.time(), 0
-                while quiet < 4 and time.time() - t0 < 5:
-                    time.sleep(0.005)
-                    quiet = quiet + 1 if self.active == 0 else 0
-        finally:
-            del job.evaluate
-        return before, exc
-
-
-def parallel_case(lab, rng, ctx, out, hist):
-    """one Algorithm.evaluate with max_processes = 2 on distinct new designs (plus designs that must be skipped)"""
-    n = rng.choice([2, 3, 4, 6])
-    pats = [rng.choice(design_patterns()) if rng.random() < 0.5 else ("ok", rng.choice([0, 0, 1, 2])) for _ in range(n)]
-    cfg = base.rand_cfg(rng, pstyle=0, extra=0)
-    patterns = {}
-    s = ParSession(lab, cfg, patterns)
-    ids = []
-    for p in pats:
-        i = s.mk(base.rand_vec(rng, cfg["dim"]))
-        patterns[i] = pattern_codes(rng, p)
-        ids.append(i)
-    skipped = []
-    for st in rng.sample(["EVALUATED", "IN_PROGRESS", "FAILED"], rng.choice([0, 1, 2])):
-        i = s.mk(base.rand_vec(rng, cfg["dim"]), base.junk_preset(rng, st, len(cfg["crit"])))
-        skipped.append(i)
-    batch = ids + skipped
-    rng.shuffle(batch)
-    before, exc = s.run_parallel(batch)
-    hist["parallel_runs"] += 1
-    inp = {"batch": batch, "patterns": {str(k): v for k, v in patterns.items()}, "processes": 2,
-           "states_before": {str(i): before[i][3] for i in before}}
-
-    def fail(what, **kw):
-        if len(ctx.oracle_failures) < 40:
-            ctx.oracle_failures.append({"what": "parallel: " + what, "input": dict(inp, **kw),
-                                        "match": {"kind": "job_parallel", "clause": what[:50]}})
-    # ---- direct oracle
-    raised = {d: e for d, e in s.dresult.items() if e is not None}
-    if raised and exc is None:
-        fail("a job raised %s but Algorithm.evaluate returned normally" % ", ".join(type(e).__name__ for e in raised.values()))
-    if exc is not None and not any(type(exc) is type(e) for e in raised.values()):
-        fail("the caller saw %r, which no job raised" % (exc,))
-    for i in skipped:
-        if s.dcalls.get(i):
-            fail("objective invoked for a design that is %s" % before[i][3], design=i)
-    trans = sorted(base.vkey(c[0]) for cs in s.dcalls.values() for c in cs if c[1] in base.TRANSIENT)
-    failed = sorted(base.vkey(s.snap(f)[0]) for f in s.problem.failed)
-    if trans != failed:
-        fail("problem.failed is not the multiset of the vectors of the failed attempts",
-             failed=[s.snap(f)[0] for f in s.problem.failed])
-    if any(f.state.name != "FAILED" for f in s.problem.failed):
-        fail("a failed copy is not marked FAILED")
-    for d, cs in s.dcalls.items():
-        if d not in ids:
-            continue
-        ind = s.objs[d]
-        hist["parallel_designs"] += 1
-        codes = [c[1] for c in cs]
-        res = s.dresult.get(d, "unfinished")
-        if len(cs) > 5:
-            fail("%d attempts for one design" % len(cs), design=d)
-        if any(c not in base.TRANSIENT for c in codes[:-1]):
-            fail("the job went on after an attempt that did not fail transiently", design=d, outcomes=codes)
-        rolls = s.drolls.get(d, [])
-        if len(rolls) != sum(1 for c in codes if c in base.TRANSIENT):
-            fail("%d replacement designs for %d transient failures" % (len(rolls), sum(1 for c in codes if c in base.TRANSIENT)), design=d)
-        for k in range(1, len(cs)):
-            if k - 1 < len(rolls) and not base.same_vec(cs[k][0], rolls[k - 1]):
-                fail("the retry was not made with the freshly sampled design", design=d)
-        for v in rolls:
-            if any(not (p["bounds"][0] <= x <= p["bounds"][1]) for x, p in zip(v, s.problem.parameters)):
-                fail("replacement design outside the bounds", replacement=v)
-        last = codes[-1]
-        if last == "ok":
-            if res is not None:
-                fail("job raised %r although its last attempt succeeded" % (res,), design=d)
-            elif ind.state.name != "EVALUATED":
-                fail("design is %s after a successful attempt" % ind.state.name, design=d)
-            else:
-                s.check_pair(ind, "C06")
-        elif last in base.FATAL:
-            if res is not cs[-1][2]:
-                fail("a non-transient %s did not propagate out of the job at once (job result %r)" % (type(cs[-1][2]).__name__, res), design=d)
-            elif ind.state.name == "EVALUATED":
-                fail("design marked evaluated although its evaluation raised", design=d)
-        else:
-            if len(cs) == 5 and type(res) is not RuntimeError:
-                fail("five consecutive failures did not raise RuntimeError (job result %r)" % (res,), design=d)
-            elif len(cs) < 5:
-                fail("design given up after %d failed attempt(s)" % len(cs), design=d, job_result=repr(res))
-    for g, what, detail in s.failures:
-        if g == "C06":
-            fail(what, **detail)
-    # ---- one model case per design that was started
-    table = ll(list(s.cons.values()), lambda p: pl(base.enc_vec(p[0]), base.enc_vec(p[1])))
-    store_by = {}
-    for o, snap in s.store:
-        store_by.setdefault(s.id_of(o), []).append(snap)
-    for d in ids:
-        cs = s.dcalls.get(d)
-        if not cs or d not in s.dresult:
-            hist["parallel_not_started"] += 1
-            continue
-        outs = []
-        for vec, code, e in cs:
-            outs.append("Transient" if code in base.TRANSIENT else "(Fatal %s)" % nl(base.FATAL[code][1]) if code in base.FATAL
-                        else "(Ok %s)" % base.enc_vec(s.F(vec)))
-        case = "par_design_case %s %s %s %s %s" % (ll(s.signs, bl), base.enc_vec(before[d][0]), ll(outs), table,
-                                                  ll(s.drolls.get(d, []), base.enc_vec))
-        res = base.Session.classify(s.dresult[d])
-        expected = pl(ll(["RUnit", "(RRes %s)" % base.enc_result(res)]),
-                      ll([base.enc_snap(s.snap(s.objs[d]))]), "[]",
-                      ll([base.enc_snap((c[0], [], [], "FAILED", False)) for c in cs if c[1] in base.TRANSIENT]),
-                      ll([pl(nl(0), base.enc_snap(x)) for x in store_by.get(d, [])]),
-                      ll([pl(nl(0), base.enc_vec(c[0])) for c in cs]), "true")
-        out.append((case, expected, {"parallel": True, "design": d, "outcomes": [c[1] for c in cs],
-                                     "vectors": [c[0] for c in cs], "result": str(res), "final": s.snap(s.objs[d])}))
-        ctx.count(("par", tuple(c[1] for c in cs), str(res)), nontrivial=len(cs) > 1)
-
-
 def run(ctx):
     lab = base.Lab(ctx)
     rng = ctx.rng
     cases, expected, meta = [], [], []
     hist = base.new_hist()
-    hist.update({"parallel_runs": 0, "parallel_designs": 0, "parallel_not_started": 0, "patterns": {}})
+    hist.update({"patterns": {}})
     pats = design_patterns()
 
     def add(s, key):
@@ -340,7 +130,10 @@ def run(ctx):
     # 2-worker parallel runs: the exception has to surface through joblib
     par = []
     for k in range(ctx.pick(60, 600)):
-        parallel_case(lab, rng, ctx, par, hist)
+        base.interleaved_case(lab, rng, ctx, par, hist, "C06")
+    # the same long-lived Job object re-entered from inside the objective (nested evaluation of another design)
+    for k in range(ctx.pick(60, 600)):
+        base.interleaved_case(lab, rng, ctx, par, hist, "C06", nested=True)
     for c, e, m in par:
         cases.append(c)
         expected.append(e)
